@@ -290,6 +290,8 @@ package node
 //@   ensures[C15.once] $sends <= old($sends) + 1
 //@   ensures[C15.messages] $sends != old($sends) ==> $lastSent == operation.ResultMsgs && (forall j int :: 0 <= j && j < len(operation.ResultMsgs) ==> operation.ResultMsgs[j].SenderAddr == s.userName && content(operation.ResultMsgs[j].Signature) == edSign(keyOf(s.userName), content(operation.ResultMsgs[j].Data)) && operation.ResultMsgs[j].Data == old(operation.ResultMsgs[j].Data) && operation.ResultMsgs[j].Event == old(operation.ResultMsgs[j].Event) && operation.ResultMsgs[j].DkgRoundID == old(operation.ResultMsgs[j].DkgRoundID) && operation.ResultMsgs[j].RecipientAddr == old(operation.ResultMsgs[j].RecipientAddr))
 //@   ensures[C15.retired] result == nil ==> (operation.ID in $retired)
+// an answer that is refused leaves the pool as it was: the operation stays pending (C18: rejected input is a no-op)
+//@   ensures[C15.refused.keeps,C18.api.noop] result != nil ==> $retired == old($retired)
 
 
 // ---- the polling loop (C13): the saved offset moves past a message only after that message was handled
@@ -349,6 +351,8 @@ package node
 //@   assert@call TasksToMessages[C03.reconstruct.expansion] msgs == loc(signingTasks)
 //@   loop 2 invariant[C03.reconstruct.index] forall k string :: k in messages ==> (exists j int :: 0 <= j && j <= $i && messagesPayload[j].MessageID == k && messages[k] == messagesPayload[j])
 //@   loop 3 invariant[C03.reconstruct.index] forall k string :: k in messages ==> (exists j int :: 0 <= j && j < len(messagesPayload) && messagesPayload[j].MessageID == k && messages[k] == messagesPayload[j])
+// every reconstructed signature is stored and exported next to the bytes that were signed: the record carries the payload of its message
+//@   loop 3 invariant[C03.reconstruct.src] forall j int :: 0 <= j && j < len(response) ==> response[j].SrcPayload == messages[response[j].MessageID].Payload
 //@   assert@call recoverFullSign[C03.reconstruct.payload] msg == loc(messages)[loc(messageID)].Payload && sigShares == loc(messagePartialSignatures) && ((loc(messageID) in loc(messages)) ==> (exists j int :: 0 <= j && j < len(loc(messagesPayload)) && loc(messagesPayload)[j].MessageID == loc(messageID) && msg == loc(messagesPayload)[j].Payload))
 
 //@ func (github.com/lidofinance/dc4bc/client/services/operation.OperationService).GetOperations
